@@ -364,8 +364,8 @@ def lazy_rendering(chk, F, rule, cfg):
 # selector: match_call_pattern (R01.1 R01.2 R04.2 R04.3 R04.5)
 # ------------------------------------------------------------------------------------------
 
-FIRST_HIT_OK = re.compile(r'(::Deref>?::deref$|::iter$|IntoIterator>?::into_iter$|Iterator::enumerate$|Iterator::filter_map$|Iterator::filter$|Iterator::map$|'
-                          r'Iterator::inspect$|Iterator::by_ref$|Iterator::peekable$|Iterator>?::next$|Iterator::find$|Iterator::find_map$|Iterator::position$|'
+FIRST_HIT_OK = re.compile(r'(::Deref>?::deref$|::iter$|IntoIterator>?::into_iter$|Iterator>?::enumerate$|Iterator>?::filter_map$|Iterator>?::filter$|Iterator>?::map$|'
+                          r'Iterator>?::inspect$|Iterator>?::by_ref$|Iterator>?::peekable$|Iterator>?::next$|Iterator>?::find$|Iterator>?::find_map$|Iterator>?::position$|'
                           r'Option::transpose$|Result::map_err$|Option::map$|Result::map$|Option::ok_or\w*$|::as_slice$|Option::copied$|Option::cloned$)')
 
 
@@ -398,10 +398,15 @@ def selector_rules(chk, F, cfg, r_scan='R01.1', r_pure='R01.2', r_ord='R04.5', r
            config=cfg, fn=fn, site='mode-switch', unrecognised=True, what='mode switch not recognised', found={'paths': len(paths), 'any': len(any_paths), 'ordered': len(ord_paths)})
 
     # ---- InAnyOrder: forward first-hit scan over this method's own list
-    if r_scan:
+    root_pred = lambda x: x[0] == 'ref' and x[1][1][-1:] == (('f', 'call_patterns'),) and x[1][0] == ('ptr', ('param', 0, 2))  # noqa: E731
+    if r_scan and any_paths and all(L.pipeline_calls(p.outcome[1] if p.outcome[0] == 'return' else ('unk', ''), root_pred) is None for p in any_paths) and \
+            any(p.called(r'Iterator>?::next$') for p in any_paths):
+        # the scan is written as an explicit loop, not as an iterator pipeline
+        loop_scan(chk, F, r_scan, r_pure, cfg, fn, any_paths, root_pred)
+    elif r_scan:
         for p in any_paths:
             v = p.outcome[1] if p.outcome[0] == 'return' else ('unk', '')
-            names = L.pipeline_calls(v, lambda x: x[0] == 'ref' and x[1][1][-1:] == (('f', 'call_patterns'),) and x[1][0] == ('ptr', ('param', 0, 2)))
+            names = L.pipeline_calls(v, root_pred)
             if names is None:
                 chk.ob(r_scan, 'unordered selection is a pipeline over the called method\'s own pattern list', False, config=cfg, fn=fn, site='scan', unrecognised=True,
                        what='scan shape not recognised', found=show(v)[:300], expected='iterator pipeline rooted at fn_mocker.call_patterns')
@@ -502,6 +507,90 @@ def selector_rules(chk, F, cfg, r_scan='R01.1', r_pure='R01.2', r_ord='R04.5', r
     return fn, paths
 
 
+LOOP_SRC_OK = re.compile(r'(::Deref>?::deref$|::iter$|IntoIterator>?::into_iter$|Iterator::enumerate$|::as_slice$|Iterator::by_ref$|Iterator>?::next$)')
+
+
+def loop_scan(chk, F, r_scan, r_pure, cfg, fn, any_paths, root_pred):
+    """The unordered selection written as `for (i, p) in fn_mocker.call_patterns.iter().enumerate() { match matcher(p, None) { .. } }`:
+    the iterator walks this method's own list front to back without adapters that skip or reorder; each element is shown to the
+    matcher (without diagnostics) exactly once, in turn; the first accepted element is returned at once together with its own
+    enumeration index; a rejected element only leads to the next one; exhaustion returns None; a matcher error is returned at once.
+    Decided on every path of the bounded unrolling (two iterations: first element, any later element)."""
+    n = 0
+    for p in any_paths:
+        evs = [e for e in p.effects if e.kind == 'call' and re.search(r'Iterator>?::next$|^core::ops::Fn::call$', e.data[1])]
+        other = [e.data[1] for e in p.effects if e.kind == 'call' and not re.search(r'Iterator>?::next$|^core::ops::Fn::call$', e.data[1]) and not LOOP_SRC_OK.search(e.data[1])
+                 and not re.search(r'DynCtx::map_pattern_error$', e.data[1])]
+        chk.ob(r_pure, 'the unordered scan calls nothing but the iterator, the matcher and (on a matcher error) the error mapper', not other, config=cfg, fn=fn, site='loop-scan:calls',
+               what='scan calls %s' % sorted(set(other)), found=sorted(set(other)))
+        cur = None      # the element of the current iteration (value of the latest `next`)
+        state = 'need-next'
+        ok = True
+        why = ''
+        for e in evs:
+            val = ('call', e.data[1], e.data[2], e.data[3])
+            if re.search(r'Iterator>?::next$', e.data[1]):
+                if state != 'need-next':
+                    ok, why = False, 'advances without consulting the matcher for the current element'
+                    break
+                names = L.pipeline_calls(e.data[2][0], root_pred)
+                if names is None or not all(LOOP_SRC_OK.search(x) for x in names):
+                    ok, why = False, 'iterator is not a plain forward walk over fn_mocker.call_patterns: %s' % (names,)
+                    break
+                cur = val
+                nd = [d for d in p.decisions if strip(d.value)[0] == 'discr' and strip(strip(d.value)[1]) == val]
+                state = 'exhausted' if nd and decision_variant(F, nd[-1]) == 'None' else 'have-elem'
+            else:
+                if state != 'have-elem':
+                    ok, why = False, 'matcher consulted twice for one element (or before the first element)'
+                    break
+                a = strip(e.data[2][1])
+                elem = strip(a[4][0][1]) if a[0] == 'agg' and len(a[4]) == 2 else ('unk', '')
+                rep = strip(a[4][1][1]) if a[0] == 'agg' and len(a[4]) == 2 else ('unk', '')
+                if not mentions(elem, lambda x: x == cur):
+                    ok, why = False, 'matcher applied to something other than the current element: %s' % show(elem)[:80]
+                    break
+                chk.ob('R06.5', 'unordered selection runs the matcher without diagnostics', rep[0] == 'agg' and rep[3] == 'None', config=cfg, fn=fn, site='matcher-reporter', what='reporter', found=show(rep))
+                # what the path decides about this matcher result
+                res = None
+                for d in p.decisions:
+                    v = strip(d.value)
+                    if v[0] == 'discr' and strip(v[1]) == val:
+                        res = 'err' if decision_variant(F, d) == 'Err' else res
+                    inner, t = L.truth_of(d)
+                    if t is not None and inner[0] == 'field' and inner[2] == '0' and strip(inner[1])[0] == 'as' and strip(strip(inner[1])[1]) == val and res != 'err':
+                        res = 'accepted' if t else 'rejected'
+                if res is None:
+                    ok, why = False, 'the decision taken on the matcher result is not recognised'
+                    break
+                state = {'rejected': 'need-next', 'accepted': 'accepted', 'err': 'err'}[res]
+                last_call = val
+        n += 1
+        lab = ret_label(p)
+        if ok:
+            if state == 'accepted':
+                v = strip(strip(strip(p.outcome[1])[4][0][1])[4][0][1]) if lab == 'Ok:Some' else ('unk', '')
+                parts = dict(v[4]) if v[0] == 'agg' else {}
+                idx, pat = strip(parts.get('0', ('unk', ''))), strip(parts.get('1', ('unk', '')))
+                okr = lab == 'Ok:Some' and mentions(idx, lambda x: x == cur) and mentions(pat, lambda x: x == cur) and \
+                    field_path(idx[4][0][1] if idx[0] == 'agg' and idx[4] else idx)[1][-1:] == ['0'] and field_path(pat)[1][-1:] == ['1']
+                ok, why = okr, 'an accepted element must be returned at once with its own index: %s / %s' % (lab, show(v)[:120])
+            elif state == 'err':
+                ok, why = lab.startswith('Err:'), 'a matcher error must be returned at once: %s' % lab
+            elif state == 'have-elem':
+                ok, why = False, 'an element was fetched but never shown to the matcher'
+            elif state == 'exhausted':
+                ok, why = lab == 'Ok:None', 'exhaustion must return Ok(None): %s' % lab
+            else:
+                # (paths cut by the unrolling bound are not reported by the interpreter: this path really returns here)
+                ok, why = False, 'the list is never consulted' if cur is None else 'returns after a rejected element without trying the next one'
+
+        chk.ob(r_scan, 'unordered selection (loop form) is a forward first-hit scan over the called method\'s own patterns', ok, config=cfg, fn=fn, site='loop-scan',
+               what='loop scan: %s' % why if not ok else 'loop scan', found=why if not ok else None, expected='for (i, p) in call_patterns.iter().enumerate(): first accepted => Some((i, p)); rejected => next; end => None')
+    chk.floor(r_scan, 'paths of the loop-form scan', n, 4, config=cfg)
+    chk.sample({'fn': fn.defp, 'config': cfg, 'unordered_scan': 'explicit forward first-hit loop over fn_mocker.call_patterns'})
+
+
 def accept_closure(chk, F, rule, cfg, cf, via):
     """R01.2: the accept predicate only consults the matcher; accepted iff Ok(true)"""
     paths = symex.Interp(F).run(cf)
@@ -568,14 +657,32 @@ def slot_lookup(chk, F, rule, cfg):
     fn = F.fn('fn_mocker::FnMocker::find_call_pattern_for_call_order')
     paths = symex.Interp(F).run(fn)
     chk.analysed(fn)
+    own = lambda x: x[0] == 'ref' and x[1][1][-1:] == (('f', 'call_patterns'),) and x[1][0] == ('ptr', ('param', 0, 1))  # noqa: E731
+    plumbing = re.compile(r'(Try>?::branch$|FromResidual<.*>::from_residual$)')
     for p in paths:
         v = p.outcome[1] if p.outcome[0] == 'return' else ('unk', '')
-        names = L.pipeline_calls(v, lambda x: x[0] == 'ref' and x[1][1][-1:] == (('f', 'call_patterns'),) and x[1][0] == ('ptr', ('param', 0, 1)))
-        ok = names is not None and all(FIRST_HIT_OK.search(n) for n in names) and sum(1 for n in names if re.search(r'Iterator::(find|find_map|position)$|Iterator>?::next$', n)) == 1
-        bad = [n for n in (names or []) if L.ORDER_DENY.search(n) and not re.search(r'::(filter|filter_map|find|find_map|position)$', n)]
+        names = L.pipeline_calls(v, own)
+        sv = strip(v)
+        if names is None and sv[0] == 'agg' and sv[3] == 'Some' and strip(sv[4][0][1])[0] == 'agg':
+            # `let i = list.iter().position(pred)?; Some((PatIndex(i), &list[i]))`: the index is found by a forward first-hit scan of
+            # the method's own list and the element returned is that list's element at exactly that index
+            parts = dict(strip(sv[4][0][1])[4])
+            idx = strip(parts.get('0', ('unk', '')))
+            idx = strip(idx[4][0][1]) if idx[0] == 'agg' and idx[4] else idx
+            el = strip(parts.get('1', ('unk', '')))
+            names = L.pipeline_calls(idx, own)
+            elem_ok = False
+            for x in symex.subvalues(el):
+                if is_call(x, r'ops::Index<I>>?::index$|::get_unchecked$') and own(strip(x[2][0])) and strip(x[2][1]) == idx:
+                    elem_ok = True
+            chk.ob(rule, 'the pattern returned is the element of the method\'s own list at the index the scan found', elem_ok and names is not None, config=cfg, fn=fn, site='scan-elem',
+                   what='slot scan element %s' % show(el)[:100], found=show(el)[:200])
+        names_c = [n for n in (names or []) if not plumbing.search(n)]
+        ok = names is not None and all(FIRST_HIT_OK.search(n) for n in names_c) and sum(1 for n in names_c if re.search(r'Iterator>?::(find|find_map|position)$|Iterator>?::next$', n)) == 1
+        bad = [n for n in names_c if L.ORDER_DENY.search(n) and not re.search(r'::(filter|filter_map|find|find_map|position)$', n)]
         chk.ob(rule, 'slot lookup scans the method\'s own list forward to the first owner', ok and not bad, config=cfg, fn=fn, site='scan', unrecognised=(names is None),
-               what='slot scan:%s' % ','.join(x.rsplit('::', 1)[-1] for x in (bad or names or ['?'])), found=names)
-        for e in p.calls(r'Iterator::(find|find_map|position|filter)$'):
+               what='slot scan:%s' % ','.join(x.rsplit('::', 1)[-1] for x in (bad or names_c or ['?'])), found=names)
+        for e in p.calls(r'Iterator>?::(find|find_map|position|filter)$'):
             c = strip(e.data[2][1])
             cref = c
             if c[0] == 'ref' and len(c) > 3:
@@ -614,6 +721,10 @@ def slot_predicate(chk, F, rule, cfg, cf):
                     o = p.outcome[1] if p.outcome[0] == 'return' else None
                     if o is not None and strip(o)[0] == 'c':
                         outs.add(bool(strip(o)[1]))
+                    elif o is not None and is_call(o, r'ops::Range(<Idx>)?::contains$|RangeBounds>?::contains$') and \
+                            field_path(strip(o)[2][0])[1][-1:] == ['ordered_call_index_range'] and 'ordered_call_index' in show(strip(o)[2][1]):
+                        # std contract: Range::contains(&r, &i) == (r.start <= i && i < r.end)
+                        outs.add(d1 >= 0 and d2 < 0)
                     elif o is not None:
                         cmp = as_comparison(o)
                         val = eval_slot_cmp(cmp, d1, d2) if cmp else None
